@@ -84,6 +84,16 @@ CHECKS.update({
 CHECKS["C04"] = (CHECKS["C04"][0] + "; symbolic execution (CrossHair/z3) with symbolic bounds n, m and greediness", CHECKS["C04"][1] +
                  " Symbolic-bound harnesses: for every n, m in the stated integer range (and None) the real parser reads the emitted text as REPEAT(n, m, greedy|lazy, operand).",
                  CHECKS["C04"][2], CHECKS["C04"][3])
+_E3NOTE = ("Trusts CrossHair 0.0.110 + z3 with the plugin patches of DESIGN.md §1 and CrossHair's model of re matching (relib, patched) as the engine on BOTH sides of the comparison "
+           "(wrapper vs direct re.finditer/fullmatch on the emitted text in the same run), so a discrepancy can only come from the wrapper code; counterexamples are replayed with the "
+           "real re. Blind spots of the model (empty subject, Match.lastindex) are covered by concrete execution of the same harness body on listed sources. File I/O is a stub.")
+for _p, _t in (("C11", "has_match/is_exact_match/get_matches(_and_pos)/iterate_* == what re finds, compiled or not and after every history of compile()/get_compiled_pattern(True|False)/purge()/match calls"),
+               ("C12", "get_captures(_and_pos)/get_named_captures(_and_pos) and iterate_* == re's groups, spans by group identity, None/(-1,-1) for non-participants, include_empty / relative_to_match symbolic"),
+               ("C13", "split_by_match / split_by_capture rebuild the source from the match / capture spans; replace == the first count matches replaced, negative count rejected"),
+               ("C14", "every method with is_path gives the same result for a path as for the file's content (stubbed open); context windows == text[max(s-nl,0):min(e+nr,len)] with symbolic nl, nr")):
+    CHECKS[_p] = ("symbolic execution (CrossHair/z3) of the real wrapper methods on a symbolic source text, all paths; oracle = direct re on the emitted text; concrete points with the real re",
+                  "For concrete patterns (empty-width, prefix alternation, lazy, anchors, DOTALL, look-arounds, mixed named/unnamed/optional/nested/empty groups) and EVERY source text up to the "
+                  "stated length (every code point): " + _t + ".", _E3NOTE, "DESIGN.md §2 " + _p)
 NOT_YET = "check not built yet in this round (work in progress; see DESIGN.md for the planned engine)"
 
 m = {
@@ -94,7 +104,7 @@ m = {
            "baseline_off_cmd": "cd /repo && /venv/bin/python -m pytest -ra -q -p no:cacheprovider --timeout=900 --continue-on-collection-errors",
            "source_commits": [], "add_only": True},
  "engines": [
-   {"name": "symx", "path": "vlib/symx/", "serves_properties": ["C01", "C03", "C04", "C09", "C10"],
+   {"name": "symx", "path": "vlib/symx/", "serves_properties": ["C01", "C03", "C04", "C09", "C10", "C11", "C12", "C13", "C14"],
     "kind_free_text": "CrossHair symbolic execution of the real pregex constructors together with CPython's pure-Python re parser; symbolic characters / ints; "
                       "per-path concolic self-validation; counterexamples followed up by rexsat and replayed"},
    {"name": "rexsat", "path": "vlib/rexsat.py", "serves_properties": sorted(CHECKS),
